@@ -14,7 +14,9 @@ import (
 //         that every lock-order inversion between the handle and the directory locks is exercised;
 //   r<i>  random small programs on a 6-path pool under a random schedule (create races through the
 //         mkdir/write gaps, listing while adding/removing, copy while writing).
-func genMain(out *bufio.Writer, n int) {
+// followed by nsa scenarios of the shared-ancestor family sa_<i> and nsib of the sibling family sib_<i>
+// (gen_families.go; a negative count = the whole enumeration).
+func genMain(out *bufio.Writer, n, nsa, nsib, n4assign, n4perms int) {
 	r := hx.NewRand(hx.SeedFromEnv() ^ 0x9E09)
 	val := func() string { return fmt.Sprintf("%02x%02x", r.Intn(256), r.Intn(256)) }
 	// --- holder family (exhaustive over the three pools)
@@ -88,4 +90,9 @@ func genMain(out *bufio.Writer, n int) {
 		}
 		fmt.Fprintln(out, "end")
 	}
+	// --- the two enumerated families (their own PRNG streams: the draws do not depend on n)
+	rsa := hx.NewRand(hx.SeedFromEnv() ^ 0x5A09)
+	emitFamily(out, rsa, sharedAncestorFamily(rsa, n4assign, n4perms), nsa)
+	rsib := hx.NewRand(hx.SeedFromEnv() ^ 0x51B9)
+	emitFamily(out, rsib, siblingFamily(), nsib)
 }
